@@ -275,6 +275,22 @@ func ruleR20b(c *Ctx, r *Report) {
 			}
 		}
 		if bad == "" && name == "NewDeferredCarWriterForStream" {
+			// the default is prepended into a fresh slice: append(opts, default) would write into the
+			// caller's backing array and let a later option of the caller's be lost / reordered
+			eachInstr(fn, func(in ssa.Instruction) {
+				ci, ok := in.(*ssa.Call)
+				if !ok {
+					return
+				}
+				if b, isB := ci.Call.Value.(*ssa.Builtin); !isB || b.Name() != "append" {
+					return
+				}
+				if canon(ci.Call.Args[0]) == ssa.Value(fn.Params[2]) {
+					bad = "the default option is appended to the caller's own slice (append(opts, ...)): it is written into the caller's backing array and comes after the caller's options, so WriteAsCarV1(false) from the caller no longer overrides it and a later append by the caller overwrites it"
+				}
+			})
+		}
+		if bad == "" && name == "NewDeferredCarWriterForStream" {
 			if len(callsToFunc(fn, modV2, "", "WriteAsCarV1")) != 1 {
 				bad = "the stream constructor does not prepend WriteAsCarV1(true)"
 			} else if k, ok := constBool(callsToFunc(fn, modV2, "", "WriteAsCarV1")[0].Common().Args[0]); !ok || !k {
@@ -292,69 +308,100 @@ func ruleR20c(c *Ctx, r *Report) {
 		r.InfraFail("%v", err)
 		return
 	}
+	// the callback step may live in Put or in an unexported helper of the same type that Put calls
+	type site struct {
+		fn      *ssa.Function
+		content func(ssa.Value) bool // is this value len(content)?
+	}
+	isLenOf := func(v, content ssa.Value) bool {
+		lc, _ := callOf(canon(v))
+		if lc == nil {
+			return false
+		}
+		b, isB := lc.Call.Value.(*ssa.Builtin)
+		return isB && b.Name() == "len" && canon(lc.Call.Args[0]) == content
+	}
+	sites := []site{{put, func(v ssa.Value) bool { return isLenOf(v, put.Params[3]) }}}
+	eachInstr(put, func(in ssa.Instruction) {
+		ci, ok := in.(*ssa.Call)
+		if !ok {
+			return
+		}
+		h := ci.Common().StaticCallee()
+		if h == nil || h.Blocks == nil || h.Pkg != put.Pkg || h.Signature.Recv() == nil {
+			return
+		}
+		// which helper parameters receive len(content)?
+		sizeParams := map[ssa.Value]bool{}
+		for i, a := range ci.Call.Args {
+			if isLenOf(a, put.Params[3]) && i < len(h.Params) {
+				sizeParams[h.Params[i]] = true
+			}
+		}
+		sites = append(sites, site{h, func(v ssa.Value) bool { return sizeParams[canon(v)] }})
+	})
 	// callbacks receive len(content)
 	{
 		key := "callback-arg@" + fnKey(put)
 		bad := "no callback invocation found"
-		content := put.Params[3]
-		eachInstr(put, func(in ssa.Instruction) {
-			ci, ok := in.(*ssa.Call)
-			if !ok || ci.Common().IsInvoke() || ci.Common().StaticCallee() != nil {
-				return
-			}
-			if _, isB := ci.Common().Value.(*ssa.Builtin); isB {
-				return
-			}
-			// dynamic call of a func(int)
-			if len(ci.Call.Args) != 1 {
-				return
-			}
-			lc, _ := callOf(canon(ci.Call.Args[0]))
-			if lc != nil {
-				if b, isB := lc.Call.Value.(*ssa.Builtin); isB && b.Name() == "len" && canon(lc.Call.Args[0]) == ssa.Value(content) {
-					bad = ""
+		for _, st := range sites {
+			eachInstr(st.fn, func(in ssa.Instruction) {
+				ci, ok := in.(*ssa.Call)
+				if !ok || ci.Common().IsInvoke() || ci.Common().StaticCallee() != nil {
 					return
 				}
-			}
-			bad = "a put callback is invoked with something other than len(content)"
-		})
+				if _, isB := ci.Common().Value.(*ssa.Builtin); isB {
+					return
+				}
+				if len(ci.Call.Args) != 1 || !isIntegral(ci.Call.Args[0].Type()) {
+					return
+				}
+				if st.content(ci.Call.Args[0]) {
+					bad = ""
+				} else {
+					bad = "a put callback is invoked with something other than len(content)"
+				}
+			})
+		}
 		r.Check(bad == "", key, c.Pos(put.Pos()), "cb(len(content))", bad)
 	}
 	// once-only removal: putCb = append(putCb[:i], putCb[i+1:]...)
 	{
 		key := "once-removal@" + fnKey(put)
 		bad := "no removal of once-only callbacks found"
-		eachInstr(put, func(in ssa.Instruction) {
-			st, ok := in.(*ssa.Store)
-			if !ok {
-				return
-			}
-			fa, ok := st.Addr.(*ssa.FieldAddr)
-			if !ok || !fieldAddrIs(fa, pkgDeferred, "DeferredCarWriter", "putCb") {
-				return
-			}
-			ac, _ := callOf(canon(st.Val))
-			if ac == nil {
-				bad = "putCb is reassigned from something other than an append"
-				return
-			}
-			if b, isB := ac.Call.Value.(*ssa.Builtin); !isB || b.Name() != "append" {
-				bad = "putCb is reassigned from something other than an append"
-				return
-			}
-			s0, ok0 := ac.Call.Args[0].(*ssa.Slice)
-			s1, ok1 := ac.Call.Args[1].(*ssa.Slice)
-			if !ok0 || !ok1 || s0.High == nil || s1.Low == nil || s1.High != nil || s0.Low != nil {
-				bad = "a once-only callback is not removed by the order-preserving splice append(cbs[:i], cbs[i+1:]...): the remaining callbacks change order"
-				return
-			}
-			env := &AffEnv{}
-			if !env.of(s1.Low).add(env.of(s0.High), -1).equal(Aff{K: 1}) {
-				bad = "the splice does not remove exactly element i"
-				return
-			}
-			bad = ""
-		})
+		for _, st := range sites {
+			eachInstr(st.fn, func(in ssa.Instruction) {
+				sto, ok := in.(*ssa.Store)
+				if !ok {
+					return
+				}
+				fa, ok := sto.Addr.(*ssa.FieldAddr)
+				if !ok || !fieldAddrIs(fa, pkgDeferred, "DeferredCarWriter", "putCb") {
+					return
+				}
+				ac, _ := callOf(canon(sto.Val))
+				if ac == nil {
+					bad = "putCb is reassigned from something other than an append"
+					return
+				}
+				if b, isB := ac.Call.Value.(*ssa.Builtin); !isB || b.Name() != "append" {
+					bad = "putCb is reassigned from something other than an append"
+					return
+				}
+				s0, ok0 := ac.Call.Args[0].(*ssa.Slice)
+				s1, ok1 := ac.Call.Args[1].(*ssa.Slice)
+				if !ok0 || !ok1 || s0.High == nil || s1.Low == nil || s1.High != nil || s0.Low != nil {
+					bad = "a once-only callback is not removed by the order-preserving splice append(cbs[:i], cbs[i+1:]...): the remaining callbacks change order"
+					return
+				}
+				env := &AffEnv{}
+				if !env.of(s1.Low).add(env.of(s0.High), -1).equal(Aff{K: 1}) {
+					bad = "the splice does not remove exactly element i"
+					return
+				}
+				bad = ""
+			})
+		}
 		r.Check(bad == "", key, c.Pos(put.Pos()), "append(putCb[:i], putCb[i+1:]...)", bad)
 	}
 }
